@@ -1,6 +1,6 @@
 """Recognisers for repository idioms (enumerated; anything else = not recognised)."""
 from __future__ import annotations
-from ..astq import Node, up, strip, strip_cast, walk_no_nested_fn, resolve_local
+from ..astq import Node, up, strip, strip_cast, walk_no_nested_fn, resolve_local, binding_before
 from .layout import origin
 
 
@@ -57,7 +57,7 @@ def reduction_over(fn, n, op):
         return None
     # follow a local
     if n.k == "path" and "::" not in n["path"]:
-        sites = [s for s in resolve_local(fn, n["path"]) if s[0] == "let"]
+        sites = _let_sites(fn, n)
         if len(sites) == 1 and sites[0][-1] == ():
             let = sites[0][1]
             name = n["path"]
@@ -177,6 +177,17 @@ def _loop_accumulate(fn, let, name, op):
     return res
 
 
+def _let_sites(fn, n):
+    """the `let` that binds the local named by path node n at that point (scope- and shadowing-aware); [] if it is not a let"""
+    try:
+        b = binding_before(fn, n["path"], n) if getattr(n, "order", -1) >= 0 else None
+    except Exception:
+        b = None
+    if b is None and getattr(n, "order", -1) < 0:
+        return [s for s in resolve_local(fn, n["path"]) if s[0] == "let"]
+    return [b] if b is not None and b[0] == "let" else []
+
+
 def first_of(fn, n):
     """n is `C[0].f...` / `C.first().unwrap().f...` / `C.iter().next().unwrap().f` -> (collection_origin, chain)"""
     n = strip_cast(n)
@@ -186,7 +197,7 @@ def first_of(fn, n):
         n = strip(n["base"])
     n = _unwrapish(n)
     if isinstance(n, Node) and n.k == "path" and "::" not in n["path"] and chain == []:
-        sites = [s for s in resolve_local(fn, n["path"]) if s[0] == "let"]
+        sites = _let_sites(fn, n)
         if len(sites) == 1 and sites[0][-1] == () and sites[0][1].get("init") is not None:
             return first_of(fn, sites[0][1]["init"])
         return None
@@ -195,7 +206,7 @@ def first_of(fn, n):
     if isinstance(n, Node) and n.k == "mcall" and n["method"] == "first" and not n["args"]:
         return (origin(fn, n["recv"]), list(reversed(chain)))
     if isinstance(n, Node) and n.k == "path" and "::" not in n["path"]:
-        sites = [s for s in resolve_local(fn, n["path"]) if s[0] == "let"]
+        sites = _let_sites(fn, n)
         if len(sites) == 1 and sites[0][-1] == () and sites[0][1].get("init") is not None:
             r = first_of(fn, sites[0][1]["init"])
             if r is not None:
@@ -212,7 +223,7 @@ def last_of(fn, n):
         n = strip(n["base"])
     n = _unwrapish(n)
     if isinstance(n, Node) and n.k == "path" and "::" not in n["path"]:
-        sites = [s for s in resolve_local(fn, n["path"]) if s[0] == "let"]
+        sites = _let_sites(fn, n)
         if len(sites) == 1 and sites[0][-1] == () and sites[0][1].get("init") is not None:
             r = last_of(fn, sites[0][1]["init"])
             if r is not None:
@@ -223,6 +234,9 @@ def last_of(fn, n):
         b = up(strip(n["base"]))
         if ix.k == "binary" and ix["op"] == "-" and up(strip(ix["l"])) == b + ".len()" and up(strip(ix["r"])) == "1":
             return (origin(fn, n["base"]), list(reversed(chain)))
+        ob = origin(fn, n["base"])
+        if origin(fn, ix) == "(%s.len()-lit:1)" % ob:       # `let n = c.len(); c[n - 1]`
+            return (ob, list(reversed(chain)))
     if isinstance(n, Node) and n.k == "mcall" and n["method"] == "last" and not n["args"]:
         return (origin(fn, n["recv"]), list(reversed(chain)))
     return None
